@@ -36,6 +36,9 @@ def mutation_of_items(st):
     if isinstance(st, ast.Delete):
         for t in st.targets:
             if isinstance(t, ast.Subscript) and self_items(t.value):
+                sl = t.slice
+                if isinstance(sl, ast.Slice) and sl.lower is None and sl.upper is None and sl.step is None:
+                    return 'del-all'
                 return 'del'
     if isinstance(st, ast.Assign):
         for t in st.targets:
@@ -106,6 +109,9 @@ def check(ctx, report):
             for st in nested:
                 report.add('C12.R1', f.construct + '@conditional-mutation', 'mutation of self._items inside a nested block cannot be matched with a dominating check')
             for i, kind in muts:
+                if kind in ('reverse', 'sort'):
+                    # a permutation of the items: the sum of the item sizes, and with it both bounds, is unchanged
+                    continue
                 earlier = [j for j, _ in muts if j < i]
                 guards = update_guards(body[:i])
                 if not guards:
@@ -119,6 +125,18 @@ def check(ctx, report):
                 for _, call, in_slice_branch in guards[-1][1]:
                     kw = {k.arg: k.value for k in call.keywords}
                     dk, ik = ('del_items', 'insert_items') if in_slice_branch else ('del_item', 'insert_item')
+                    if kind == 'del-all':
+                        d = kw.get('del_items')
+                        if not (d is not None and ast.unparse(d) in ('self._items', 'self._items[:]', 'list(self._items)')) or 'insert_items' in kw or 'insert_item' in kw:
+                            report.add('C12.R1', '%s@%s' % (f.construct, kind), 'removal of all items must be checked as del_items=self._items')
+                    if kind == 'extend':
+                        v = kw.get('insert_items')
+                        arg = body[i].value.args[0] if body[i].value.args else None
+                        local_lists = {t.id for st in body[:i] if isinstance(st, ast.Assign) and isinstance(st.value, ast.Call)
+                                       and isinstance(st.value.func, ast.Name) and st.value.func.id in ('list', 'tuple') for t in st.targets if isinstance(t, ast.Name)}
+                        if not (isinstance(v, ast.Name) and isinstance(arg, ast.Name) and v.id == arg.id and v.id in local_lists) or 'del_items' in kw or 'del_item' in kw:
+                            report.add('C12.R1', '%s@%s' % (f.construct, kind),
+                                       'bulk insertion must be checked as insert_items=<the materialised list that is then appended>')
                     if kind in ('del', 'setitem'):
                         d = kw.get(dk)
                         if not (isinstance(d, ast.Subscript) and self_items(d.value) and isinstance(d.slice, ast.Name) and d.slice.id in params):
@@ -138,6 +156,25 @@ def check(ctx, report):
                     plain_branches = [g for g in guards[-1][1] if not g[2]]
                     if not slice_branches or not plain_branches:
                         report.add('C12.R4', f.construct + '@slice', 'index may be a slice: self._items[index] is then a list handed to get_item_size as one item, _items_size drifts')
+    # R6: composite MutableSequence mixins (several primitive edits per call) are replaced by atomic versions
+    report.rule('C12.R6', 'bulk edits (extend / += / clear / reverse) are atomic: one bound check, one mutation')
+    for name in ('extend', 'clear', 'reverse'):
+        report.count('C12.R6')
+        f = ab.methods.get(name)
+        if f is None:
+            report.add('C12.R6', ab.construct + '@inherited[%s]' % name,
+                       'MutableSequence.%s is inherited: it applies primitive edits one by one, so an edit refused half way leaves the earlier steps '
+                       'in place (and reverse() of variable size items can be refused although the result is within bounds)' % name)
+            continue
+        n_mut = sum(1 for st in ast.walk(f.node) if mutation_of_items(st))
+        loops = [n for n in ast.walk(f.node) if isinstance(n, (ast.For, ast.While))]
+        if n_mut != 1 or loops:
+            report.add('C12.R6', f.construct + '@atomic', 'bulk edit performs %d mutations%s: it must check once and mutate once' % (n_mut, ' inside a loop' if loops else ''))
+    report.count('C12.R6')
+    ia = ab.methods.get('__iadd__')
+    if ia is not None and not any(isinstance(n, ast.Call) and isinstance(n.func, ast.Attribute) and n.func.attr == 'extend' for n in ast.walk(ia.node)):
+        report.add('C12.R6', ia.construct + '@atomic', '__iadd__ does not go through the atomic extend')
+    item_size_agreement(ctx, report, ab)
     # R2
     u = ab.methods.get('_update_items_size')
     if u is None:
@@ -218,3 +255,106 @@ def check(ctx, report):
                 report.sample({'rule': 'C12.R5', 'class': c.name, 'min': mn, 'max': mx, 'prefix_width': w}, 6)
     report.floor('C12.R1', 3, 'mutation sites')
     report.floor('C12.R5', 45, 'container obligations')
+
+
+# ---- R7: what get_item_size counts per item == what the vector's composer emits per item --------------------------
+
+def size_form(f):
+    """classification of the value VectorParam*.get_item_size returns"""
+    rets = [ast.unparse(n.value).replace(' ', '') for n in ast.walk(f.node) if isinstance(n, ast.Return) and n.value is not None]
+    if rets == ['self.item_size']:
+        return 'fixed:item_size'
+    if rets == ['1']:
+        return 'fixed:1'
+    if rets == ['len(item.compose())']:
+        return 'composed'
+    if rets == ['self.fallback_class.get_byte_num()']:
+        return 'code-width'
+    if len(rets) == 1 and rets[0].endswith('+len(item.value.code)') and 'item_num_size' in rets[0]:
+        return 'prefix+code'
+    if rets == ['len(item.value.code)']:
+        return 'code'
+    if rets and all(r in ('len(item.compose())', 'item.value.get_code_size()', 'len(item)', 'len(str(item))') for r in rets):
+        return 'text-item'
+    return 'unknown:' + '|'.join(rets)[:60]
+
+
+def emit_form(f):
+    """classification of the bytes a vector composer writes per item"""
+    calls = [n for n in ast.walk(f.node) if isinstance(n, ast.Call) and isinstance(n.func, ast.Attribute)]
+    names = [c.func.attr for c in calls]
+    in_loop = {id(c) for loop in ast.walk(f.node) if isinstance(loop, ast.For) for c in ast.walk(loop) if isinstance(c, ast.Call)}
+    for c in calls:
+        a = c.func.attr
+        if a == 'compose_numeric_array' and len(c.args) == 2 and id(c) not in in_loop:
+            w = ast.unparse(c.args[1]).replace(' ', '')
+            return 'fixed:item_size' if w.endswith('.item_size') else ('fixed:%s' % w)
+        if a == 'compose_string_enum_coded' and id(c) in in_loop:
+            return 'prefix+code'
+        if a in ('compose_numeric_enum_coded',) and id(c) in in_loop:
+            return 'code-width'
+        if a == 'compose_parsable_array':
+            joined = len(c.args) > 1 or any(k.arg == 'separator' for k in c.keywords)
+            return 'joined' if joined else 'composed'
+        if a == 'compose_string_array':
+            return 'joined'
+    if 'super' in ast.unparse(f.node) and 'compose' in names:
+        return 'delegates'
+    return 'unknown:' + ','.join(sorted(set(n for n in names if n.startswith('compose'))))[:60]
+
+
+COMPATIBLE = {
+    ('fixed:item_size', 'fixed:item_size'): 'n items of item_size bytes',
+    ('fixed:1', 'fixed:1'): 'opaque bytes, one per item',
+    ('fixed:1', 'fixed:item_size'): 'opaque parameter fixes item_size to 1',
+    ('composed', 'composed'): 'every item contributes its own encoding',
+    ('code-width', 'code-width'): 'every item (member or unknown code wrapper) is one code of the fallback width (widths compared by C10.R3)',
+    ('prefix+code', 'prefix+code'): 'length prefix of the item class plus the name',
+}
+# separator joined text vectors: the separators (n - 1 bytes, or 2 per header line) are not counted. Accepted only while the
+# bound cannot be reached or is not a wire bound: facts re-checked on every run
+JOINED_OK = {'prefix4-unbounded': 'uint32 prefix and max_byte_num = 2**32 - 1: the uncounted separators cannot push a body that fits in memory over the prefix',
+             'no-prefix': 'no length prefix on the wire (CRLF separated header block): the bound is a library limit, nothing can overflow'}
+
+
+def item_size_agreement(ctx, report, ab, RULE='C12.R7', title='the size counted per item equals the bytes the composer writes per item'):
+    model, it = ctx.model, ctx.interp
+    report.rule(RULE, title)
+    for c in model.all_subclasses(ab):
+        gp = c.resolve('get_param')
+        if c.abstract_methods or gp is None or gp.abstract:
+            continue
+        prm = it.const_call(c, 'get_param')
+        comp = c.resolve('compose')
+        if not isinstance(prm, ObjV) or not isinstance(prm.cls, ClassInfo) or comp is None:
+            report.undecided.append('%s: get_param() not foldable' % c.name)
+            continue
+        gis = prm.cls.resolve('get_item_size')
+        if gis is None:
+            continue
+        report.count(RULE)
+        report.touch(gis)
+        report.touch(comp)
+        sf, ef = size_form(gis), emit_form(comp)
+        if ef == 'delegates' or comp.cls.name == 'TlsHandshakeHelloRandomBytes':
+            # fixed 32 byte random: composes through Vector.compose of its base and strips the synthetic prefix
+            base_comp = [k for k in c.mro[1:] if isinstance(k, ClassInfo) and 'compose' in k.methods and k is not comp.cls]
+            if base_comp:
+                ef = emit_form(base_comp[0].methods['compose'])
+        if (sf, ef) in COMPATIBLE:
+            report.sample({'rule': RULE, 'class': c.name, 'counts': sf, 'emits': ef, 'why': COMPATIBLE[(sf, ef)]}, 14)
+            continue
+        if ef == 'joined' and sf in ('text-item', 'composed'):
+            w, mx = prm.attrs.get('item_num_size'), prm.attrs.get('max_byte_num')
+            if w == 4 and mx == 2 ** 32 - 1:
+                report.sample({'rule': RULE, 'class': c.name, 'verdict': 'reviewed', 'reason': JOINED_OK['prefix4-unbounded']}, 14)
+                continue
+            if w == 0:
+                report.sample({'rule': RULE, 'class': c.name, 'verdict': 'reviewed', 'reason': JOINED_OK['no-prefix']}, 14)
+                continue
+            report.add(RULE, c.construct + '@separators', 'separator joined items: the separators are not counted, and the bound %s with a %s byte prefix can be reached' % (mx, w))
+            continue
+        report.add(RULE, '%s@item-size[%s/%s]' % (c.construct, sf, ef),
+                   'the vector parameter counts %s per item (%s) but the composer %s emits %s: the checked size is not the encoded size' % (
+                       sf, gis.construct, comp.construct, ef))
+    report.floor(RULE, 30, 'vector classes')
